@@ -61,6 +61,8 @@ class iscan_context {
 // NOLINTEND(misc-non-private-member-variables-in-classes)
 
     std::deque<stack_element> stackq_;
+    std::string resume_key_;
+    scan_endpoint resume_point_{scan_endpoint::INF};
 
 public:
     tree_instance *get_ti() { return ti_; }
@@ -91,6 +93,15 @@ public:
         }
         return buf;
     }
+
+    // where to resume from the Masstree root: the start of the scan, or (after the first
+    // returned entry) the last returned key, exclusive
+    void set_resume(std::string_view key, scan_endpoint point) {
+        resume_key_.assign(key);
+        resume_point_ = point;
+    }
+    const std::string& get_resume_key() { return resume_key_; }
+    scan_endpoint get_resume_point() { return resume_point_; }
 
     key_tuple get_end_tuple(int offset) {
         if (!right_to_left_ && end_point_ == scan_endpoint::INF) {
@@ -148,6 +159,7 @@ iscan_findfirst(iscan_context* ctx, std::string_view start_key, scan_endpoint st
                               && ctx->get_end_point() == scan_endpoint::INCLUSIVE;
 
 retry_from_root: // retry from Masstree root
+    ctx->stack_clear(); // drop the layers pushed by an abandoned descent
     base_node* root = ctx->get_ti()->load_root_ptr();
     if (root == nullptr) {
         // no border to callback is exist, so give up callback
@@ -211,8 +223,9 @@ retry_fetch_lv:
         // case 1. lv_ptr != nullptr, and link to next-layer
         // visited this node
 
-        root = lv_ptr->get_next_layer();
-        if (root == nullptr) {
+        // keep `root` (the root of the layer this border belongs to) for the stack entry
+        base_node* next_layer_root = lv_ptr->get_next_layer();
+        if (next_layer_root == nullptr) {
             if (early_abort) { return status::WARN_CONCURRENT_OPERATIONS; }
             goto retry_fetch_lv; // NOLINT
         }
@@ -239,6 +252,7 @@ retry_fetch_lv:
                 cmp_to_end = -1;
             }
         }
+        root = next_layer_root;
         goto next_layer; // NOLINT
     }
 
@@ -311,7 +325,9 @@ iscan_open(tree_instance* ti, std::string_view l_key, scan_endpoint l_end, std::
         right_to_left, early_abort);
     context = ctx;
 
+    ctx->set_resume(right_to_left ? r_key : l_key, right_to_left ? r_end : l_end);
     auto rc = iscan_findfirst(ctx, right_to_left ? r_key : l_key, right_to_left ? r_end : l_end, out, bnv_cb);
+    if (rc == status::OK) { ctx->set_resume(ctx->full_key(), scan_endpoint::EXCLUSIVE); }
     if (rc != status::OK_SCAN_CONTINUE) { return rc; }
     return iscan_next(ctx, out, bnv_cb);
 }
@@ -352,10 +368,11 @@ retry_from_root:
                 // mt root is deleted, so scan end
                 return status::OK_SCAN_END;
             }
-            // L1+
-            ctx->stack_pop();
-            st = &ctx->stack_top(); // sync alias
-            goto retry_from_root; // NOLINT
+            // L1+: the layer the cursor is inside lost its root (emptied, or its root
+            // interior collapsed). The saved position is meaningless in the upper layer,
+            // so resume from the Masstree root after the last returned key.
+            if (early_abort) { return status::WARN_CONCURRENT_OPERATIONS; }
+            return status::OK_RETRY_FROM_ROOT;
         }
         if (!rv.get_root()) {
             // saved-root is now not root. split?
@@ -365,9 +382,10 @@ retry_from_root:
                 ctx->stack_top().layer_root = new_mt_root;
                 goto retry_from_root; // NOLINT
             }
-            ctx->stack_pop();
-            st = &ctx->stack_top(); // sync alias
-            goto next_layer; // NOLINT // or jump to entry point of this function
+            // L1+: the layer's root was replaced (split). Continuing after the link in the
+            // upper layer would drop the rest of this layer: resume from the Masstree root.
+            if (early_abort) { return status::WARN_CONCURRENT_OPERATIONS; }
+            return status::OK_RETRY_FROM_ROOT;
         }
         status check_status{};
         auto border_node_and_v =
@@ -676,7 +694,16 @@ iscan_next(iscan_context* ctx, void*& value,
             ctx->stack_clear();
             return rc;
         }
+        if (rc == status::OK_RETRY_FROM_ROOT) {
+            // rebuild the position from the Masstree root, after the last returned key
+            ctx->stack_clear();
+            const std::string resume_key{ctx->get_resume_key()};
+            rc = iscan_findfirst(ctx, resume_key, ctx->get_resume_point(), value, bnv_cb);
+            if (rc == status::OK_SCAN_CONTINUE) { continue; }
+            if (rc != status::OK) { return rc; }
+        }
         if (rc == status::OK) {
+            ctx->set_resume(ctx->full_key(), scan_endpoint::EXCLUSIVE);
             return rc; // return value
         }
         if (rc == status::WARN_CONCURRENT_OPERATIONS || rc == status::WARN_ABORTED_BY_USER) {
